@@ -66,6 +66,19 @@ func checkNoObservableWrite(c *Ctx, rule, key string, f *ssa.Function, idx int, 
 	m2 := c.Mod2()
 	mods := m2.ModsRooted(f, idx)
 	full := c.Mod.ModsRooted(f, idx)
+	// a scratch buffer — a field no code reads except to empty it first — is not observable state
+	if idx < len(f.Params) {
+		keep := func(ls []string) []string {
+			var out []string
+			for _, l := range ls {
+				if !c.locIsScratch(f.Params[idx].Type(), l) {
+					out = append(out, l)
+				}
+			}
+			return out
+		}
+		mods, full = keep(mods), keep(full)
+	}
 	found := "observable write set empty"
 	if len(full) > 0 {
 		found += "; representation-only writes via sort/compaction: " + strings.Join(full, " ")
@@ -282,6 +295,9 @@ func c14Copies(c *Ctx, a *sketchAnchors) {
 		fresh := true
 		var badOrig []string
 		for _, fld := range fields {
+			if fv := structFieldVar(x.t, fld.path); fv != nil && !c.fieldCarriesState(fv) {
+				continue // nobody reads it (or only to empty it first): nothing a copy could fail to carry over
+			}
 			ok := len(paths) > 0
 			found := ""
 			for _, p := range paths {
@@ -397,6 +413,9 @@ func c14Copies(c *Ctx, a *sketchAnchors) {
 		// AddWithCount) filters entries (zero weights) that the original still reports through MinIndex/MaxIndex/IsEmpty.
 		for _, fld := range fields {
 			if _, isMap := fld.typ.Underlying().(*types.Map); !isMap {
+				continue
+			}
+			if fv := structFieldVar(x.t, fld.path); fv != nil && !c.fieldCarriesState(fv) {
 				continue
 			}
 			verbatim := false
